@@ -175,12 +175,163 @@ def pairs_shard(args):
     return agg
 
 
+# ------------------------------------------------------------------------------------------------
+# dataflow: set/sort operations whose operands are earlier results or the very same value (aliasing), as a DAG of locals
+
+def dataflow_case(rng):
+    keyed = rng.random() < 0.5
+    kp = (lambda e: e[0]) if keyed else (lambda e: e)
+    K = ", function(e) e[0]" if keyed else ""
+    names, vals, binds = [], [], []
+
+    def lit(tag):
+        ks = sorted(set(float(rng.randint(0, 9)) for _ in range(rng.randint(0, 7))))
+        return [[k, float(tag)] for k in ks] if keyed else ks
+    for i in range(rng.randint(1, 3)):
+        v = lit(i)
+        names.append("s%d" % i)
+        vals.append(v)
+        binds.append("s%d = %s" % (i, jval(v)))
+    for j in range(rng.randint(2, 6)):
+        op = rng.choice(["setUnion", "setInter", "setDiff", "setUnion", "setInter", "setDiff", "set_of_concat", "sort", "uniq", "set", "ident_fn"])
+        a = rng.randrange(len(names))
+        b = a if rng.random() < 0.4 else rng.randrange(len(names))
+        A, B = vals[a], vals[b]
+        ka, kb = [kp(e) for e in A], [kp(e) for e in B]
+        nm = "r%d" % j
+        if op == "setUnion":
+            v = sorted(A + [e for e in B if kp(e) not in ka], key=kp)
+            src = "std.setUnion(%s, %s%s)" % (names[a], names[b], K)
+        elif op == "setInter":
+            v = [e for e in A if kp(e) in kb]
+            src = "std.setInter(%s, %s%s)" % (names[a], names[b], K)
+        elif op == "setDiff":
+            v = [e for e in A if kp(e) not in kb]
+            src = "std.setDiff(%s, %s%s)" % (names[a], names[b], K)
+        elif op == "set_of_concat":
+            v = uniq(sorted(A + B, key=kp), kp)
+            src = "std.set(%s + %s%s)" % (names[a], names[b], K)
+        elif op == "sort":
+            v = sorted(A, key=kp)
+            src = "std.sort(%s%s)" % (names[a], K)
+        elif op == "uniq":
+            v = uniq(A, kp)
+            src = "std.uniq(%s%s)" % (names[a], K)
+        elif op == "set":
+            v = uniq(sorted(A, key=kp), kp)
+            src = "std.set(%s%s)" % (names[a], K)
+        else:
+            # the same value passed twice through a function parameter
+            f = rng.choice(["setUnion", "setInter", "setDiff"])
+            v = {"setUnion": A, "setInter": A, "setDiff": []}[f]
+            src = "(function(p, q) std.%s(p, q%s))(%s, %s)" % (f, K, names[a], names[a])
+        names.append(nm)
+        vals.append(v)
+        binds.append("%s = %s" % (nm, src))
+    n0 = len([n for n in names if n.startswith("s")])
+    src = "local " + ", ".join(binds) + "; [" + ", ".join(names[n0:]) + "]"
+    return ("dataflow:" + ("keyed" if keyed else "plain"), src, vals[n0:])
+
+
+# ------------------------------------------------------------------------------------------------
+# re-entrancy: the comparison that decides the order forces a lazy element which itself runs sort / set / fold / ...
+
+def lazy_number(rng, depth=0):
+    """-> (jsonnet expression, python value); the expression runs a builtin that keeps evaluator-side state."""
+    R = [float(rng.randint(0, 9)) for _ in range(rng.randint(2, 8))]
+    R2 = [float(rng.randint(0, 9)) for _ in range(rng.randint(2, 6))]
+    J, J2 = jval(R), jval(R2)
+    k = rng.randrange(14)
+    if depth < 1 and rng.random() < 0.25:
+        inner_src, inner_v = lazy_number(rng, depth + 1)
+        return "std.sort([%s, %s, 99])[0]" % (inner_src, jval(R[0])), min(inner_v, R[0], 99.0)
+    if k == 0:
+        return "std.sort(%s)[0]" % J, min(R)
+    if k == 1:
+        return "std.sort(%s, function(x) -x)[0]" % J, max(R)
+    if k == 2:
+        return "std.set(%s)[0]" % J, min(R)
+    if k == 3:
+        return "std.length(std.setUnion(std.set(%s), std.set(%s)))" % (J, J2), float(len(set(R) | set(R2)))
+    if k == 4:
+        return "std.foldl(function(a, b) a + b, %s, 0)" % J, float(sum(R))
+    if k == 5:
+        return "std.minArray(%s)" % J, min(R)
+    if k == 6:
+        return "std.length(std.uniq(std.sort(%s)))" % J, float(len(set(R)))
+    if k == 7:
+        return "std.length(std.filter(function(x) x > 4, %s))" % J, float(len([x for x in R if x > 4]))
+    if k == 8:
+        return "std.sum(std.map(function(x) x * 2, %s))" % J, float(sum(R) * 2)
+    if k == 9:
+        return "std.length(std.setInter(std.set(%s), std.set(%s)))" % (J, J2), float(len(set(R) & set(R2)))
+    if k == 10:
+        return "std.length(std.setDiff(std.set(%s), std.set(%s)))" % (J, J2), float(len(set(R) - set(R2)))
+    if k == 11:
+        return "std.maxArray(%s, function(x) -x)" % J, min(R)
+    if k == 12:
+        return "std.length(std.join([0], [std.sort(%s), std.set(%s)]))" % (J, J2), float(len(R) + 1 + len(set(R2)))
+    return "std.length('%%s' %% [std.sort(%s)]) * 0 + std.sort(%s)[1]" % (J, J), sorted(R)[1]
+
+
+def reentrant_case(rng):
+    n = rng.choice([2, 3, 4, 5, 8, 12, 31, 40])
+    groups = rng.choice([1, 2, 3])
+    rows, pyrows = [], []
+    for i in range(n):
+        g = float(rng.randrange(groups))
+        src, v = lazy_number(rng)
+        rows.append((g, src, i))
+        pyrows.append([g, v, float(i)])
+    form = rng.randrange(6)
+    items = "[" + ", ".join("[%s, %s, %d]" % (common.jnum(g), src, i) for g, src, i in rows) + "]"
+    if form == 0:
+        return ("reentrant:sort_identity", "std.sort(%s)" % items, sorted(pyrows))
+    if form == 1:
+        return ("reentrant:sort_key", "std.sort(%s, function(r) [r[0], r[1]])" % items, sorted(pyrows, key=lambda r: [r[0], r[1]]))
+    if form == 2:
+        return ("reentrant:set_key", "std.set(%s, function(r) [r[0], r[1]])" % items,
+                uniq(sorted(pyrows, key=lambda r: [r[0], r[1]]), lambda r: [r[0], r[1]]))
+    if form == 3:
+        return ("reentrant:minmax", "[std.minArray(%s, function(r) [r[0], r[1]]), std.maxArray(%s, function(r) [r[0], r[1]])]" % (items, items),
+                [min(pyrows, key=lambda r: [r[0], r[1]]), max(pyrows, key=lambda r: [r[0], r[1]])])
+    if form == 4:
+        # the key function itself is lazy in its second component and runs a sort
+        return ("reentrant:key_runs_sort", "std.sort(%s, function(r) [r[0], std.sort([r[1], 100])[0]])" % items,
+                sorted(pyrows, key=lambda r: [r[0], min(r[1], 100.0)]))
+    sa = uniq(sorted(pyrows[: n // 2], key=lambda r: [r[0], r[1]]), lambda r: [r[0], r[1]])
+    sb = uniq(sorted(pyrows[n // 2:], key=lambda r: [r[0], r[1]]), lambda r: [r[0], r[1]])
+    ka = [[r[0], r[1]] for r in sa]
+    la = "[" + ", ".join("[%s, %s, %d]" % (common.jnum(rows[int(r[2])][0]), rows[int(r[2])][1], int(r[2])) for r in sa) + "]"
+    lb = "[" + ", ".join("[%s, %s, %d]" % (common.jnum(rows[int(r[2])][0]), rows[int(r[2])][1], int(r[2])) for r in sb) + "]"
+    return ("reentrant:setUnion", "std.setUnion(%s, %s, function(r) [r[0], r[1]])" % (la, lb),
+            sorted(sa + [r for r in sb if [r[0], r[1]] not in ka], key=lambda r: [r[0], r[1]]))
+
+
+def extra_shard(args):
+    seed, n = args
+    rng = random.Random(seed)
+    agg = Agg()
+    ev = Ev(agg)
+    try:
+        for i in range(n):
+            case = dataflow_case(rng) if i % 2 == 0 else reentrant_case(rng)
+            run_cases(agg, ev, [case], gcmode="every:3" if rng.random() < 0.1 else None)
+            agg.add("families", case[0])
+    finally:
+        ev.close()
+    return agg
+
+
 def run(tier, seed):
     t0 = time.time()
     quick = tier != "thorough"
     total = Agg()
     n = 12_000 if quick else 800_000
     for a in common.pmap(shard, [(seed * 307 + i, n // 64, quick) for i in range(64)]):
+        total.merge(a)
+    n2 = 6_400 if quick else 400_000
+    for a in common.pmap(extra_shard, [(seed * 311 + i, n2 // 32) for i in range(32)]):
         total.merge(a)
     masks = list(range(64))
     for a in common.pmap(pairs_shard, [(seed, masks[i::16]) for i in range(16)]):
@@ -189,7 +340,10 @@ def run(tier, seed):
             "and sparse lengths up to 1200, few distinct keys, elements tagged with their input index; key functions "
             "identity, e[0], e.k, e[0] % 3, -e[0], std.length; oracle = Python sorted(key=) (stable), adjacent "
             "dedupe, set algebra by key with 'a' elements kept, first min/max; all 4096 pairs of subsets of a 6-key "
-            "universe for setUnion/Inter/Diff/Member; some sorts under GC every 3 steps. distinct_nontrivial = "
+            "universe for setUnion/Inter/Diff/Member; some sorts under GC every 3 steps; dataflow programs (DAGs of "
+            "setUnion/Inter/Diff/set/sort/uniq over locals in which operands are earlier results or the very same value, also passed "
+            "twice through a parameter); re-entrant comparisons (sort/set/minArray/maxArray/setUnion over rows whose deciding element is "
+            "lazy and itself runs sort/set/fold/filter/format..., nested up to twice). distinct_nontrivial = "
             "distinct (family, source) pairs compared.")
     return common.finish(PROP, tier, seed, total, rule, t0, extra={"set_pairs_exhaustive": True},
                          assumptions=["Python's sorted() is stable and list/str comparison is lexicographic by code point"])
